@@ -393,6 +393,7 @@ package fosite
 
 // ---------------------------------------------------------------- C17 / C07 / C20: pushed authorization requests
 //@ ghost par_exists : map[string]bool
+//@ ghost par_ever   : map[string]bool     // request URIs under which a pushed request has been stored at some time (history variable)
 //@ ghost par_req    : map[string]AuthorizeRequester
 //@ ghost par_client : map[string]string
 //@ ghost par_exp    : map[string]int          // expiry instant of the pushed context (0 = none recorded)
@@ -403,7 +404,8 @@ package fosite
 
 //@ interface PARStorage.CreatePARSession
 //@   requires [C20.stored-form-whitelisted] formget(request.GetRequestForm(), "client_secret") == "" && formget(request.GetRequestForm(), "client_assertion") == ""
-//@   modifies par_exists, par_req, par_client, par_exp, stored, faults
+//@   modifies par_ever, par_exists, par_req, par_client, par_exp, stored, faults
+//@   ensures (err == nil ==> par_ever == upd(old(par_ever), requestURI, true)) && (err != nil ==> par_ever == old(par_ever))
 //@   ensures err == nil ==> par_exists == upd(old(par_exists), requestURI, true) && par_req == upd(old(par_req), requestURI, request) && par_client == upd(old(par_client), requestURI, request.GetClient().GetID()) && par_exp == upd(old(par_exp), requestURI, request.GetSession() == nil ? 0 : request.GetSession().GetExpiresAt(PushedAuthorizeRequestContext)) && stored == upd(old(stored), request, true) && faults == old(faults)
 //@   ensures err != nil ==> par_unchanged() && stored == old(stored) && faults == old(faults) + 1
 
@@ -444,6 +446,7 @@ package fosite
 //@   modifies par_exists, faults, fields(request), mapof(request.Form)
 //@   ensures !result0 && err == nil ==> request.Form == old(request.Form) && request.State == old(request.State) && request.Client == old(request.Client) && request.ResponseMode == old(request.ResponseMode) && (forall k string :: (k in request.Form) == old(k in request.Form) && request.Form[k] == old(request.Form[k]))
 //@   ensures [C17.one-time] result0 ==> err == nil && old(par_exists[uri]) && !par_exists[uri]
+//@   ensures [C17.use-stores-nothing] forall u string :: par_exists[u] ==> old(par_exists[u])
 //@   ensures [C17.client-bound] result0 ==> old(par_client[uri]) == old(formget(r.Form, "client_id"))
 //@   ensures [C17.authoritative] result0 ==> (forall k string :: k in old(par_req[uri]).GetRequestForm() && request.Form != old(par_req[uri]).GetRequestForm() ==> k in request.Form && request.Form[k] == old(par_req[uri]).GetRequestForm()[k])
 //@   ensures [C17.unexpired] result0 && old(par_exp[uri]) != 0 ==> $nowcalls > old($nowcalls) && old(par_exp[uri]) >= $now
@@ -1265,3 +1268,17 @@ package fosite
 //@ func (*BCrypt).Hash
 //@   requires b != nil && b.Config != nil
 //@   ensures [C10.hasher-is-bcrypt] err == nil ==> bcrypt_err(result, data) == nil
+
+// ---------------------------------------------------------------- history lemma (ghost driver in verif_history.go), see DESIGN 0.9
+// A request URI that was stored at some time and is not stored now (used or never completed) is never accepted again:
+// the same invariant is proved stable under pushes in package par.
+//@ interface verifEnv.More
+//@ interface verifEnv.HTTPRequest
+//@   ensures result != nil
+//@ interface verifEnv.AuthorizeRequest
+//@   ensures result != nil && result.Form != nil
+//@ func verifHistoryPARUse
+//@   requires env != nil && f != nil
+//@   modifies everything
+//@   invariant loop#1 [C17.used-request-uri-stays-used] old(par_ever[uri0] && !par_exists[uri0]) ==> par_ever[uri0] && !par_exists[uri0]
+//@   ensures [C17.used-request-uri-stays-used] old(par_ever[uri0] && !par_exists[uri0]) ==> par_ever[uri0] && !par_exists[uri0]
